@@ -839,6 +839,15 @@ def _atom_or_plumbing(R, b, ty, self_id):
                detail="generic signatures contain class names but are returned unchanged")
     else:
         inner = [n for n in calls if H.callee_name(n) in ("remap", "remap_with_class_name")]
+        via = None
+        if not inner:
+            # the element step (loop body) extracted into a private helper of the crate: the forwarding call sits there
+            for n in calls:
+                hb = _helper_body(n)
+                sub = [x for x in H.walk(hb["body"]) if x.get("k") in ("call", "mcall") and H.callee_name(x) in ("remap", "remap_with_class_name")] if hb else []
+                if sub:
+                    inner += sub
+                    via = (n, hb)
         ok = len(inner) == 1
         if ok:
             # owner name forwarded unchanged in the WithClassName plumbing
@@ -846,6 +855,12 @@ def _atom_or_plumbing(R, b, ty, self_id):
                 pids = H.param_ids(b)
                 a = inner[0]["args"]
                 l = H.local_of(a[-1]) if a else None
+                if via is not None and l:
+                    # .. through the helper: its parameter that reaches the element's remap is fed with this function's owner-name parameter
+                    hp = H.param_ids(via[1])
+                    hargs = H.call_args(via[0])
+                    i_ = hp.index(l[0]) if l[0] in hp else None
+                    l = H.local_of(hargs[i_]) if i_ is not None and i_ < len(hargs) else None
                 ok = bool(l) and l[0] == pids[2]
         R.inst("R07.3", "plumbing:%s:%s" % (ty, b["name"]), ok, sp=b["sp"], got=names)
 
